@@ -263,7 +263,7 @@ def parse_snippet(text):
     return v
 
 
-def _gc(keep=6):
+def _gc(keep=40):
     """Keep only the most recent fact directories."""
     base = os.path.join(CACHE, "facts")
     try:
